@@ -154,15 +154,17 @@ static uint64_t largest_factor(uint64_t n) {
 }
 
 static void check_factor(uint64_t n) {
-    if (n > uint64_t(INT_MAX) && largest_factor(n) > uint64_t(INT_MAX)) {
-        vh::skip("factor_with_a_prime_factor_above_INT_MAX_not_representable_in_arr_int");
-        return;
-    }
+    const bool representable = !(n > uint64_t(INT_MAX) && largest_factor(n) > uint64_t(INT_MAX));
     vh::begin_case("factor", "n=%llu", (unsigned long long)n);
     arm("factor", n, B(n) + 64);
     const dl::arr_int f = dl::factor(uint32_t(n));
     vh::obs_max("factor_steps_over_budget", disarm(B(n) + 64));
     vh::count(n * 8 + 2, true);
+    if (!representable) {
+        //a prime factor above INT_MAX cannot be returned in an arr_int: only termination (the step budget above) is judged
+        vh::skip("factor_value_with_a_prime_factor_above_INT_MAX_not_representable_in_arr_int");
+        return;
+    }
     bool ok = f.size() >= 1;
     std::string why;
     if (n < 2) {
